@@ -152,6 +152,8 @@ def _cms_classes(muon: str, electron: str, trackref: str, gsfref: str) -> Dict[s
          M("isPFIsolationValid", "num", "bool", default=True),
          M("pfIsolationR04", "obj", cls="reco::MuonPFIsolation", ptr=0, default=True),
          M("nSeg", "num", "int", declared=True),
+         M("chi2s", "vec", "float", declared=True),
+         M("segments", "vec", "double", ptr=1, declared=True),
          ] + _echo_methods(),
     )
     cl["reco::MuonPFIsolation"] = C(
